@@ -275,9 +275,9 @@ def rule_r4(repo):
 
 
 def run(repo, check):
-    check.add(rule_r1(repo))
-    check.add(rule_r2(repo))
-    check.add(rule_r3(repo))
-    check.add(rule_r4(repo))
+    check.run_rule(rule_r1, repo)
+    check.run_rule(rule_r2, repo)
+    check.run_rule(rule_r3, repo)
+    check.run_rule(rule_r4, repo)
     check.assumptions = ['implicit exceptions (IndexError, KeyError, ...) are outside the claim; only explicit raise/assert sites are decided',
                          'bitstring raises a subclass of bitstring.Error on a read past the end']
